@@ -302,9 +302,13 @@ def check_property(prop, tier='quick'):
         for p in probs:
             undecided.append('%s: %s' % (ur.unit, p))
         # classify failures
+        seen_obl = set()
         for f in fails:
             if not relevant(prop, spec, ur.unit, f):
                 continue
+            if f['obligation'] in seen_obl:
+                continue
+            seen_obl.add(f['obligation'])
             hit = None
             for kf in known.get('findings', []):
                 if kf['property'] == prop and kf['obligation'] == f['obligation']:
